@@ -903,6 +903,16 @@ proof fn lemma_spliced_covered(c: Seq<u8>, o: CList, n: CList, p: int, lo: int, 
         file.content().len() == 0 ==> r is Err,
 //@open
     let ghost c = file.content();
+//@at /^\s*return Err\(/ before
+        // C18 "yields ... the byte offset of the first line of each chromosome run, or reports that the file is not grouped":
+        // a file with at least one line is indexed, not turned away.  The "Empty file" refusal is justified only by an
+        // empty FILE -- which the code may conclude from an empty buffer only if the first line was read into it.
+        proof { if c.len() > 0 { lemma_nls(c, 0); } }
+        assert(c.len() == 0); [[L: only_an_empty_file_is_refused_as_empty]]
+//@at /let chrom = parse_line\(/ before optional
+    // hint only (a non-empty file has a non-empty first line): lets a variant that tests the byte count returned by
+    // `read_line` instead of `line.is_empty()` be judged green
+    proof { if c.len() > 0 { lemma_nls(c, 0); } }
 //@at /let first = chroms\.insert_first\(/ before
     assert(line.text() =~= line_at(c, 0)); [[L: buffer_holds_exactly_the_first_line]]
 //@at /let first = chroms\.insert_first\(/ after
